@@ -17,13 +17,15 @@ def splitDots : Bytes → List Bytes
       | [] => [[c]]
       | p :: ps => (c :: p) :: ps
 
+/-- an optional single leading `+` -/
+def stripPlus : Bytes → Bytes
+  | 43 :: r => r
+  | s => s
+
 /-- Rust `u32::from_str`: optional single `+`, at least one ASCII digit, value < 2^32. -/
 def parseArcText (s : Bytes) : Option Nat :=
-  let ds : Bytes := match s with
-    | 43 :: r => r
-    | _ => s
-  if ds.isEmpty || !ds.all isDigit then none
-  else if digitsVal ds < 2 ^ 32 then some (digitsVal ds) else none
+  if (stripPlus s).isEmpty || !(stripPlus s).all isDigit then none
+  else if digitsVal (stripPlus s) < 2 ^ 32 then some (digitsVal (stripPlus s)) else none
 
 /-- base-128 encoding of one sub-identifier, exactly the five-way branch of the source. -/
 def encArc (n : Nat) : Bytes :=
